@@ -26,18 +26,34 @@ func MustParseDate(s string) Date {
 func ParseDate(s string) (Date, error) {
 	if s == "" {
 		return Date{}, fmt.Errorf("blank date string")
-	} else if date, err := time.ParseInLocation("2006-01-02", s, time.Local); err != nil {
+	} else if date, err := time.ParseInLocation("2006-01-02", s, time.UTC); err != nil {
 		return Date{}, err
 	} else {
-		return Date(date), nil
+		return ToDate(date.Year(), date.Month(), date.Day()), nil
 	}
 }
 
 // Utility function to explicitly construct a Date from year, month and day.
 func ToDate(year int, month time.Month, day int) Date {
+	return Date(startOfDay(year, month, day))
+}
+
+// Returns the first instant of a calendar day in the local time zone. That is 00:00 except on
+// days on which a DST (or other) transition skips local midnight, for which time.Date returns a
+// time on the previous day.
+func startOfDay(year int, month time.Month, day int) time.Time {
 	date := time.Date(year, month, day, 0, 0, 0, 0, time.Local)
 
-	return Date(date)
+	if date.Day() != day {
+		hh, mm, ss := date.Clock()
+		dt := 24*time.Hour - time.Duration(hh)*time.Hour - time.Duration(mm)*time.Minute - time.Duration(ss)*time.Second
+
+		if t := date.Add(dt); t.Year() == year && t.Month() == month && t.Day() == day {
+			return t
+		}
+	}
+
+	return date
 }
 
 // Returns true if the date is the zero value.
@@ -145,10 +161,10 @@ func (d *Date) UnmarshalUT0311L0x(bytes []byte) (any, error) {
 		}
 	}
 
-	if date, err := time.ParseInLocation("20060102", decoded, time.Local); err != nil {
+	if date, err := time.ParseInLocation("20060102", decoded, time.UTC); err != nil {
 		return &Date{}, nil
 	} else {
-		v := Date(date)
+		v := ToDate(date.Year(), date.Month(), date.Day())
 
 		return &v, nil
 	}
@@ -175,12 +191,12 @@ func (d *Date) UnmarshalJSON(bytes []byte) error {
 		return nil
 	}
 
-	date, err := time.ParseInLocation("2006-01-02", s, time.Local)
+	date, err := time.ParseInLocation("2006-01-02", s, time.UTC)
 	if err != nil {
 		return err
 	}
 
-	*d = Date(date)
+	*d = ToDate(date.Year(), date.Month(), date.Day())
 
 	return nil
 }
